@@ -188,6 +188,8 @@ def work_gen(task):
     try:
         at_all, tg_all, fm_all = vocab_names(drv)
         for i in range(start, start + count):
+            if len(ev.violations) >= 30:
+                break       # verdict settled
             rnd = random.Random((seed << 32) ^ (i * 2654435761 & 0xffffffff) ^ 0xC06)
             g = DF.ForestGen(rnd, DF.FCfg(max_units=rnd.choice([2, 4, 6]), max_dies=rnd.choice([12, 40]), partial=0.7))
             f = g.forest()
